@@ -3,6 +3,7 @@
 //! Every suite prints one case per line:  op \t args \t real-result
 //! The OCaml driver (extracted Coq model) recomputes the result from `op args` and compares.
 mod sbdd;
+mod stext;
 mod sx;
 
 use std::io::Write;
@@ -67,6 +68,7 @@ fn main() {
     let mut out = Out { w: std::io::BufWriter::with_capacity(1 << 20, std::io::stdout()), cases: 0 };
     match suite.as_str() {
         "bdd" => sbdd::main(&mut out, &o),
+        "text" => stext::main(&mut out, &o),
         "replay" => {
             // re-run case lines given on stdin (op \t args [\t old-real]) against the current implementation
             let stdin = std::io::stdin();
@@ -100,6 +102,10 @@ fn replay_one(op: &str, args: &str, _o: &Opts) -> String {
     match op {
         "run" => match sx::parse(args) {
             Ok(x) => sbdd::run_case(&rsbdd::bdd::BDDEnv::new(), &x),
+            Err(e) => format!("(harness-error {e})"),
+        },
+        "tok" | "parse" | "eval" => match sx::parse(args) {
+            Ok(x) => stext::replay(op, &x),
             Err(e) => format!("(harness-error {e})"),
         },
         _ => "(harness-unknown-op)".into(),
